@@ -471,7 +471,7 @@ TECHNIQUE = ("Lean 4 proof: hand model of ratio / ratio_divide / common_type / t
              "boundary + seeded correspondence run against the implementation and libstdc++")
 LEVEL_TEXT = ("duration_cast (all four duration_cast_impl bodies), the conversion to the common type (the converting constructor and "
               "common_type = gcd of numerators / lcm of denominators), == != < <= > >=, + and - of two durations, floor, ceil, "
-              "round (nearest, ties to even), abs, unary minus, the compound assignments += -= *= /= %= (also as used by time_point), "
+              "round (nearest, ties to even), abs, unary minus and plus, the converting constructors of duration and time_point, the compound assignments += -= *= /= %= (also as used by time_point), "
               "duration / duration and duration % duration, duration * rep, rep * duration, duration / rep, duration % rep, "
               "time_point + duration, duration + time_point, time_point - duration and time_point - time_point are proved in Lean 4 — for every pair of periods with positive numerator and denominator, every signed 32..64-bit "
               "representation and every tick count for which the intermediate products and the exact result are representable — "
@@ -480,7 +480,7 @@ LEVEL_TEXT = ("duration_cast (all four duration_cast_impl bodies), the conversio
               "round-half-even of c*p/q, comparison of the two values in seconds, and a sum / difference whose value in seconds is "
               "the sum / difference of the operands, the truncated quotient of the two values, the exact remainder, c*s ticks for a "
               "product with a tick count, the truncated quotient and the exact remainder of a division by a tick count. The members "
-              "listed in coverage.correspondence_only (unary +, the named aliases, zero/min/max, time_point's converting constructor) and every operation on floating-point representations are compared "
+              "listed in coverage.correspondence_only (the named aliases, zero/min/max) and every operation on floating-point representations are compared "
               "differentially only. The model is tied to the current source on every run by running model, implementation, Lean "
               "spec and libstdc++ on the same inputs under ASan/UBSan: all 100 ordered period pairs x all counts in [-2000, 2000] "
               "for the four casts (int64), boundary values around 2^31 and 2^62, int32 and mixed representations, periods not in "
@@ -494,8 +494,8 @@ LEVEL_NOTE = ("Trusted: Lean kernel + propext/Classical.choice/Quot.sound; the h
               "free functions of [time.duration.nonmember] / [time.point.nonmember] were added to tetl by two fix commits (fixed "
               "findings); if one of them is not declared the harness prints `missing`, which is a violation.")
 # members modelled and compared on every run but without a Lean theorem yet
-CORRESPONDENCE_ONLY = ["duration::operator+ (unary)", "named duration aliases (periods of nanoseconds … years)",
-                       "duration::zero/min/max, time_point::min/max", "time_point converting constructor",
+CORRESPONDENCE_ONLY = ["named duration aliases (periods of nanoseconds … years)",
+                       "duration::zero/min/max, time_point::min/max",
                        "all operations on floating-point representations"]
 THEOREMS = {
     "cast": ["C12.Props.durationCast_eq"], "tp_cast": ["C12.Props.durationCast_eq"],
@@ -505,7 +505,8 @@ THEOREMS = {
     "add": ["C12.Props.add_exact"], "sub": ["C12.Props.sub_exact"],
     "cmp": ["C12.Props.eq_eq", "C12.Props.lt_eq", "C12.Props.cmp_derived_eq"],
     "tp_cmp": ["C12.Props.eq_eq", "C12.Props.lt_eq", "C12.Props.cmp_derived_eq"],
-    "common": ["C12.Props.common_exact"], "ctype": ["C12.Props.commonPeriod_eq"], "conv": ["C12.Props.common_exact"],
+    "common": ["C12.Props.common_exact"], "ctype": ["C12.Props.commonPeriod_eq"],
+    "conv": ["C12.Props.common_exact", "C12.Props.convert_exact"], "tp_conv": ["C12.Props.convert_exact"], "pos": ["C12.Props.pos_eq"],
     "abs": ["C12.Props.abs_eq"], "neg": ["C12.Props.neg_eq"],
     "adda": ["C12.Props.addAssign_eq"], "tp_adda": ["C12.Props.addAssign_eq"], "inc": ["C12.Props.addAssign_eq"],
     "suba": ["C12.Props.subAssign_eq"], "tp_suba": ["C12.Props.subAssign_eq"], "dec": ["C12.Props.subAssign_eq"],
